@@ -53,7 +53,7 @@ fn call_exprs(n: usize) -> Vec<String> {
 }
 
 /// the body; `rec` renders one recursive call from its argument expressions
-fn body(s: &Shape, rec: &dyn Fn(&[String]) -> String) -> String {
+fn body(s: &Shape, rec: &dyn Fn(&[String]) -> String, nested: bool) -> String {
     let mut b = String::new();
     let n = s.nargs;
     b.push_str("            let mut sh: u64 = 1;\n");
@@ -77,7 +77,18 @@ fn body(s: &Shape, rec: &dyn Fn(&[String]) -> String) -> String {
     }
     let es = call_exprs(n);
     let call = rec(&es);
-    if s.ret {
+    if s.ret && nested {
+        // a recursive call whose first argument is itself a recursive call (Ackermann / McCarthy-91 style);
+        // the outer call gets x0 in {0, 1}, so the recursion stays shallow
+        let mut es2 = es.clone();
+        es2[0] = format!("({}) % 2", call);
+        let call2 = rec(&es2);
+        writeln!(b, "            if x0 == 0 {{ sh.wrapping_add(x{}) }} else {{", n - 1).unwrap();
+        writeln!(b, "                let r1 = {};", call).unwrap();
+        writeln!(b, "                let r2 = if x0 >= 2 {{ {} }} else {{ 5 }};", call2).unwrap();
+        writeln!(b, "                r1.wrapping_mul(3).wrapping_add(r2).wrapping_add(x{})", n - 1).unwrap();
+        b.push_str("            }\n");
+    } else if s.ret {
         writeln!(b, "            if x0 == 0 {{ sh.wrapping_add(x{}) }} else {{", n - 1).unwrap();
         writeln!(b, "                let r1 = {};", call).unwrap();
         writeln!(b, "                let r2 = if x0 % 2 == 1 {{ {} }} else {{ 7 }};", call).unwrap();
@@ -133,9 +144,9 @@ fn report(s: &Shape, tag: &str, idx: usize) -> String {
     o
 }
 
-fn gen_macro_fn(s: &Shape, idx: usize) -> String {
+fn gen_macro_fn(s: &Shape, idx: usize, nested: bool) -> String {
     let mut o = String::new();
-    writeln!(o, "fn shape_{}_m() {{", idx).unwrap();
+    writeln!(o, "fn shape_{}_m{}() {{", idx, if nested { "n" } else { "" }).unwrap();
     o.push_str(&setup(s));
     let caps: Vec<String> = s.caps.iter().enumerate()
         .map(|(i, &(m, sc))| format!("v{}: &{}{}", i, if m { "mut " } else { "" }, ty(sc))).collect();
@@ -145,19 +156,19 @@ fn gen_macro_fn(s: &Shape, idx: usize) -> String {
     o.push_str("    let (r1, r2);\n    {\n");
     writeln!(o, "        let mut clo = rec_lambda!(f, |{}| {{", caps.join(", ")).unwrap();
     writeln!(o, "            |{}|{} {{", args.join(", "), if s.ret { " -> u64" } else { "" }).unwrap();
-    o.push_str(&body(s, &rec));
+    o.push_str(&body(s, &rec, nested));
     o.push_str("            }\n        });\n");
     writeln!(o, "        r1 = clo({});", top_args(s.nargs, 3)).unwrap();
     writeln!(o, "        r2 = clo({});", top_args(s.nargs, 2)).unwrap();
     o.push_str("    }\n    let _ = (&r1, &r2);\n");
-    o.push_str(&report(s, "M", idx));
+    o.push_str(&report(s, if nested { "N" } else { "M" }, idx));
     o.push_str("}\n");
     o
 }
 
-fn gen_hand_fn(s: &Shape, idx: usize) -> String {
+fn gen_hand_fn(s: &Shape, idx: usize, nested: bool) -> String {
     let mut o = String::new();
-    writeln!(o, "fn shape_{}_h() {{", idx).unwrap();
+    writeln!(o, "fn shape_{}_h{}() {{", idx, if nested { "n" } else { "" }).unwrap();
     o.push_str(&setup(s));
     let mut params: Vec<String> = (0..s.nargs).map(|i| format!("x{}: u64", i)).collect();
     for (i, &(m, sc)) in s.caps.iter().enumerate() {
@@ -171,7 +182,7 @@ fn gen_hand_fn(s: &Shape, idx: usize) -> String {
         format!("rec({})", a.join(", "))
     };
     writeln!(o, "    fn rec({}){} {{", params.join(", "), if s.ret { " -> u64" } else { "" }).unwrap();
-    o.push_str(&body(s, &rec));
+    o.push_str(&body(s, &rec, nested));
     o.push_str("    }\n");
     let outer: Vec<String> = s.caps.iter().enumerate()
         .map(|(i, &(m, _))| format!("&{}v{}", if m { "mut " } else { "" }, i)).collect();
@@ -181,7 +192,7 @@ fn gen_hand_fn(s: &Shape, idx: usize) -> String {
         writeln!(o, "    let r{} = rec({});", k, a.join(", ")).unwrap();
     }
     o.push_str("    let _ = (&r1, &r2);\n");
-    o.push_str(&report(s, "H", idx));
+    o.push_str(&report(s, if nested { "G" } else { "H" }, idx));
     o.push_str("}\n");
     o
 }
@@ -189,13 +200,23 @@ fn gen_hand_fn(s: &Shape, idx: usize) -> String {
 fn program(shapes: &[(usize, &Shape)]) -> String {
     let mut o = String::from("#![allow(warnings)]\nuse rlib_lambda::rec_lambda;\n");
     for (idx, s) in shapes {
-        o.push_str(&gen_macro_fn(s, *idx));
-        o.push_str(&gen_hand_fn(s, *idx));
+        o.push_str(&gen_macro_fn(s, *idx, false));
+        o.push_str(&gen_hand_fn(s, *idx, false));
+        if s.ret {
+            o.push_str(&gen_macro_fn(s, *idx, true));
+            o.push_str(&gen_hand_fn(s, *idx, true));
+        }
     }
     o.push_str("fn main() {\n    std::panic::set_hook(Box::new(|_| {}));\n");
     for (idx, _) in shapes {
         writeln!(o, "    if std::panic::catch_unwind(|| shape_{i}_h()).is_err() {{ println!(\"H {i} -996\"); }}", i = idx).unwrap();
         writeln!(o, "    if std::panic::catch_unwind(|| shape_{i}_m()).is_err() {{ println!(\"M {i} -997\"); }}", i = idx).unwrap();
+    }
+    for (idx, s) in shapes {
+        if s.ret {
+            writeln!(o, "    if std::panic::catch_unwind(|| shape_{i}_hn()).is_err() {{ println!(\"G {i} -994\"); }}", i = idx).unwrap();
+            writeln!(o, "    if std::panic::catch_unwind(|| shape_{i}_mn()).is_err() {{ println!(\"N {i} -995\"); }}", i = idx).unwrap();
+        }
     }
     o.push_str("}\n");
     o
@@ -218,6 +239,8 @@ struct Res {
     compiled: bool,
     m: Option<String>,
     h: Option<String>,
+    mn: Option<String>, // the variant with a nested recursive call (shapes with a return type)
+    hn: Option<String>,
     x: String,
 }
 
@@ -245,6 +268,7 @@ fn run_group(work: &Path, name: &str, shapes: &[(usize, &Shape)], res: &mut [Res
         let rest = it.next().unwrap_or("").trim().to_string();
         if idx < res.len() {
             if tag == "M" { res[idx].m = Some(rest); } else if tag == "H" { res[idx].h = Some(rest); }
+            else if tag == "N" { res[idx].mn = Some(rest); } else if tag == "G" { res[idx].hn = Some(rest); }
         }
     }
     true
@@ -371,10 +395,16 @@ fn main() {
 
     let stdout = std::io::stdout();
     let mut out = std::io::BufWriter::new(stdout.lock());
-    for r in &res {
+    for (r, s) in res.iter().zip(shapes.iter()) {
         // a missing line (crash, abort, timeout) must never compare equal to anything
-        writeln!(out, "{} ## {} ## {} ## {}", if r.compiled { "OK" } else { "CE" },
-                 r.m.clone().unwrap_or_else(|| "-999".to_string()), r.h.clone().unwrap_or_else(|| "-998".to_string()),
+        let mut m = r.m.clone().unwrap_or_else(|| "-999".to_string());
+        let mut h = r.h.clone().unwrap_or_else(|| "-998".to_string());
+        if s.ret {
+            // the nested-call variant: its numbers follow the separator -7
+            m = format!("{} -7 {}", m, r.mn.clone().unwrap_or_else(|| "-993".to_string()));
+            h = format!("{} -7 {}", h, r.hn.clone().unwrap_or_else(|| "-992".to_string()));
+        }
+        writeln!(out, "{} ## {} ## {} ## {}", if r.compiled { "OK" } else { "CE" }, m, h,
                  if r.x.is_empty() { "XE" } else { &r.x }).unwrap();
     }
     out.flush().unwrap();
